@@ -399,7 +399,11 @@ Proof. unfold step_log. cbn [step_gen]. apply until_loop_naive. intros j Hj; lia
 (* ------------------------------------------------------------------------------------------------ *)
 
 (* what arrives during a receive_exactly call, in order: for each fetch the data fed during its wait, then the chunk
-   (nothing if the fetch met the end of the stream); `pulled` = what came out of the wrapped stream *)
+   (nothing if the fetch met the end of the stream); `pulled` = what came out of the wrapped stream.
+   NOTE (QA audit): `weave` is a SANITY clause, not a characterisation - the pieces c are existential, so it says that
+   the log is SOME fetch-wise interleaving of the feeds with the pulled bytes, not which one (the chunk boundaries are
+   not pinned).  The log itself is computed by exactly_loop (fed data before the chunk of the same fetch, by
+   definition) and is what the co-simulation compares with the events observed on the implementation. *)
 Inductive weave : list (list Z) -> list Z -> list Z -> Prop :=
 | weave_nil fs : weave fs [] []
 | weave_end fs : weave fs [] (hd [] fs)
@@ -902,7 +906,8 @@ Proof.
 Qed.
 
 (* receive_exactly(n) with feed_data() by other tasks during its waits (fs, one entry per fetch): the call hands out
-   exactly the first n bytes in ARRIVAL order - what was buffered, then for each fetch the data fed during the wait
+   exactly the first n bytes of `buf s ++ lg`, lg = the model's arrival log (see the note at `weave`: the theorem is exact
+   RELATIVE to that log) - i.e. in ARRIVAL order - what was buffered, then for each fetch the data fed during the wait
    followed by the chunk - and leaves the rest of what arrived in the buffer, in order; nothing is lost, duplicated or
    reordered whatever is fed and however the wrapped stream chunks.  IncompleteRead only when the wrapped stream is at
    its end; what arrived (the last feed included) stays buffered *)
